@@ -182,7 +182,79 @@ def all_cases(rng, thorough):
     return cases
 
 
+def big_shapes(ctx, only=None):
+    """ontologies whose SIZE or DEPTH sits on a boundary - 255 / 256 / 257 terms (thorough: 65 535 / 65 536 / 65 537), a chain of 1600 (4000)
+    levels with twigs - with annotations at every depth; the expected counts are computed here from the edge list (ancestor closure by
+    dynamic programming over the construction order), independently of the model and of the library's graph"""
+    import random
+    thorough = ctx.tier == 'thorough'
+    shapes = [('dag', 255), ('dag', 256), ('dag', 257), ('chain', 6000 if thorough else 2400)] + ([('dag', 65535), ('dag', 65536), ('dag', 65537)] if thorough else [])
+    for kind, n in ([tuple(only)] if only else shapes):
+        rng = random.Random(f'{ctx.seed}-c09-{kind}-{n}')
+        rest = [f'HP:{i:07d}' for i in rng.sample(range(2, 9000000), n - 1)]       # unsorted: the greatest id may sit anywhere in the hierarchy
+        labels = ['HP:0000001'] + rest
+        par = {0: []}
+        for j in range(1, n):
+            if kind == 'chain':
+                # a pure chain (nothing shortens the way up) with a twig - a second, leaf child - at every ninth level: the first two thirds of
+                # the nodes are the chain, the rest the twigs
+                d = (2 * n) // 3
+                par[j] = [j - 1] if j < d else [rng.randrange(d)]
+            else:
+                par[j] = sorted({rng.randrange(j), rng.randrange(max(0, j - 3), j)})
+        edges = [(labels[j], labels[i]) for j in range(1, n) for i in par[j]]
+        rng.shuffle(edges)
+        anc = {0: {0}}
+        for j in range(1, n):
+            anc[j] = {j}.union(*(anc[i] for i in par[j])) if kind != 'chain' else None
+        if kind == 'chain':
+            # closure along a deep chain without quadratic memory: walk up iteratively
+            def up(j):
+                seen, todo = {j}, [j]
+                while todo:
+                    for i in par[todo.pop()]:
+                        if i not in seen:
+                            seen.add(i)
+                            todo.append(i)
+                return seen
+        else:
+            def up(j):
+                return anc[j]
+        annotated = list(range(n)) if n < 5000 else rng.sample(range(n), 400) + [n - 1, n - 2, 0]
+        items = [[(labels[j], True)] + ([(labels[rng.randrange(n)], False)] if j % 4 == 0 else []) for j in annotated]
+        counts = {}
+        for j in annotated:
+            for a in up(j):
+                counts[a] = counts.get(a, 0) + 1
+        pop = counts[0]
+        ctx.case(['big-shape', kind, n], True, 'sizes and depths on boundaries', sample={'shape': kind, 'terms': n, 'items': len(items)})
+        problem = None
+        try:
+            depth = {0: 0}
+            for j in range(1, n):
+                depth[j] = 1 + max(depth[i] for i in par[j])
+            deepest_first = [it for _, it in sorted(zip(annotated, items), key=lambda p: -depth[p[0]])]
+            for base, order in ((None, items), (2, deepest_first)):       # shallow terms first / the DEEPEST term first (nothing is warm yet)
+                ic = impl_ic(edges, order, base, None, False)
+                wantkeys = {labels[a] for a in counts}
+                if set(ic) != wantkeys:
+                    problem = {'what': 'key-set', 'impl_has': len(ic), 'expected': len(wantkeys), 'missing_sample': sorted(wantkeys - set(ic))[:3], 'extra_sample': sorted(set(ic) - wantkeys)[:3]}
+                    break
+                for a, cnt in counts.items():
+                    want = -math.log(cnt / pop) if base is None else -math.log(cnt / pop, base)
+                    if not close(ic[labels[a]], want):
+                        problem = {'what': 'value', 'term': labels[a], 'impl': ic[labels[a]], 'expected': want, 'count': cnt, 'population': pop}
+                        break
+                if problem:
+                    break
+        except Exception as e:  # noqa
+            problem = {'what': 'raises', 'impl': f'{type(e).__name__}: {str(e)[:200]}'}
+        if problem:
+            ctx.violation(f'big-shape:{kind}:{problem["what"]}', {'case': {'kind': 'big-shape', 'shape': [kind, n]}, 'disagreement': problem, 'theorem': THEOREM})
+
+
 def run(ctx):
+    big_shapes(ctx)
     cases = all_cases(ctx.rng, ctx.tier == 'thorough')
     for i in range(0, len(cases), 250):
         evaluate(ctx, cases[i:i + 250], 'random+corners', offset=i)
@@ -192,6 +264,8 @@ def replay(ctx, data):
     """re-runs the original call sequence up to the failing call (state leaking between calls is part of the history)"""
     import common
     import random
+    if data.get('case', {}).get('kind') == 'big-shape':
+        return big_shapes(ctx, only=data['case']['shape'])
     if 'stream_index' in data:
         orig = common.Ctx(ctx.pid, data.get('tier', 'quick'), int(data.get('seed', ctx.seed)))
         cases = all_cases(orig.rng, data.get('tier') == 'thorough')[:data['stream_index'] + 1]
